@@ -213,6 +213,50 @@ CLAUSES.append(Clause(
     shards={"quick": 0, "thorough": 16},
 ))
 
+def enum_many(tier, shard, nshards, rng):
+    from . import c06
+
+    i = 0
+    for c in c06.enum_limits(tier, 0, 1, rng):
+        if c["k"] in ("many_elements", "nak_max"):
+            i += 1
+            if i % nshards == shard:
+                yield c
+
+
+def check_many(c):
+    """Valid PDUs with thousands of list elements: the decoders return (no recursion limit, no quadratic blow-up caught by the watchdog),
+    and every strict prefix cut at a few places is refused with a documented error."""
+    from . import c06
+
+    p = c06.expand_limit_case(c)
+    raw = M.ref_pdu(p)
+    devs = []
+    seen = set()
+    n = 0
+    for name in (D.PDU_CLASS_NAMES[p["kind"]] + ".unpack", "PduFactory.from_raw", "PduFactory.from_raw_to_holder"):
+        e = D.ENTRIES[name]
+        kind, r = D.outcome(e, raw, {})
+        n += 1
+        if kind != "ok":
+            _bad(devs, e, "many_elements", kind if kind in ("bad", "hang") else "bad", r if r is not None else ValueError("refused a valid PDU"), f"{p['kind']} PDU with {c.get('n', 'max')} list elements ({len(raw)} octets)") if kind != "refused" \
+                else devs.append(Dev(f"{e.name}:many_elements:valid_unit_refused", f"{type(r).__name__}: {r}"))
+            continue
+        for cut in (len(raw) - 1, len(raw) - 3, len(raw) // 2, len(raw) // 2 + 1):
+            _probe(devs, e, raw[:cut], {}, "prefix", True, seen)
+            n += 1
+    return devs, n
+
+
+from .. import cfdp_model as M  # noqa: E402
+
+CLAUSES.append(Clause(
+    id="C10.many_elements",
+    doc="valid Finished / Metadata / NAK PDUs with thousands of minimal list elements (and the maximum NAK): class decoder, factory and holder return; prefixes are refused with documented errors",
+    kind="enum", enum=enum_many, check=check_many, classify=lambda c: [c.get("what", "nak"), c["k"]], required=["finished", "metadata", "nak"], weight_by_evals=True,
+    rule="every listed case is non-trivial", shards={"quick": 8, "thorough": 8},
+))
+
 PROPERTY = Property(
     id="C10",
     level="exploration",
